@@ -443,6 +443,29 @@ def behaviours : Facts :=
    -- Annex B.2.6: "the same Function object"
    ("gmt_is_utc", "true")]
 
+/-! ### "bound to the operation of that name", for constructors: BOTH routes.  §15.2.1/15.2.2, 15.3.1, 15.4.1, 15.5.1, 15.6.1, 15.7.1,
+    15.9.2, 15.10.3, 15.11.1 ("the function call Error(…) is equivalent to the object creation expression new Error(…)"), 15.11.7.1:
+    every constructor of the library is driven through [[Call]] (plain, as a method, .call, .apply, bound, bound with arguments) and
+    through [[Construct]] (new, new on a bound function without/with bound arguments); the result is observed as
+    "<[[Prototype]] owner>:<[[Class]]>:<owner of result.constructor>:<name>:<message>" (errors, created with message "m"),
+    "…:-" (other objects) or "prim:<typeof>" (String/Number/Boolean/Date called as functions return primitives). -/
+def routeNames : List String := ["call", "plaincall", "method", "dotcall", "bound", "boundargs", "new", "boundnew", "boundargsnew"]
+def isNewRoute (r : String) : Bool := r = "new" || r = "boundnew" || r = "boundargsnew"
+def errorCtors : List String := ["Error", "EvalError", "TypeError", "RangeError", "ReferenceError", "SyntaxError", "URIError"]
+def otherCtors : List String := ["Object", "Function", "Array", "String", "Boolean", "Number", "Date", "RegExp"]
+
+def callPrimitive : String → Option String
+  | "String" | "Date" => some "prim:string" | "Boolean" => some "prim:boolean" | "Number" => some "prim:number" | _ => none
+
+def routeResult (ctor route : String) : String :=
+  if errorCtors.contains ctor then ctor ++ ".prototype:Error:" ++ ctor ++ ":" ++ ctor ++ ":m"
+  else match callPrimitive ctor, isNewRoute route with
+    | some p, false => p
+    | _, _ => ctor ++ ".prototype:" ++ ctor ++ ":" ++ ctor ++ ":-"
+
+def routes : Facts :=
+  (otherCtors ++ errorCtors).flatMap (fun c => routeNames.map (fun r => (c ++ "_" ++ r, routeResult c r)))
+
 /-! ### the reflected shape of one running runtime (the regenerated `Gen*.lean` files define one `Dump` each) -/
 structure Dump where
   ents : List (Owner × Props)      -- owner ↦ own properties in Object.getOwnPropertyNames order, each with its shape token
@@ -451,6 +474,7 @@ structure Dump where
   forIn : Facts
   links : Facts
   kinds : List (Owner × Facts)     -- owner ↦ "@self" and every object-valued slot ↦ "<class>:<objectClass>:<Go type of value>" (hook)
+  routes : Facts                   -- every constructor through every [[Call]] / [[Construct]] route
   behaviours : Facts               -- behaviour of arrays / String objects / arguments objects the language creates
   order : String                   -- "consistent" iff propertyOrder = keys(property) on every reachable object
   evalLink : String                -- "ok" iff rt.eval is the object bound to the global property `eval`
